@@ -293,12 +293,66 @@ func c11Exhaustive(c *Ctx, maxN int) []bitmap {
 	return tables
 }
 
+type planarBatch struct {
+	N    int    `json:"n"`
+	Lo   uint64 `json:"lo"`
+	Hi   uint64 `json:"hi"`
+	Step uint64 `json:"step"`
+}
+
 func runC11(c *Ctx) {
 	c.Level = "model_checking"
 	c.Rule = "part A: every labelled graph with n<=7 (8 thorough) against a bottom-up K5/K3,3-minor table (cross-checked with the published counts of labelled planar graphs), other representations for n<=6, monotonicity under edge deletion on the library's own answers; part B: explicit-state BFS over truth-preserving operations (subdivide, pendant, isolated vertex, relabel, delete edge on the planar side, add edge on the non-planar side) from seeds of known planarity (all triangulations generated from K4 by two expansions, wheels, prisms, antiprisms, icosahedron; K5, K3,3 and their subdivisions), n<=14, deduplicated on the labelled edge set; part C: graphs with 63-140 vertices of known planarity (wheels with the hub at several labels, path cubes, random triangulations grown by the two expansions and their subgraphs, grids, chains of blocks, triangulations plus a subdivided extra edge, torus grid, heavily subdivided K5/K3,3/Petersen) under identity, reversal, rotations and pseudo-random relabellings, dense and sparse; non-trivial = non-planar graph (part A) or state with n >= 9 (part B)"
 	maxN := 7
 	if c.Thorough() {
 		maxN = 8
+	}
+	// canary in isolated workers: IsPlanar is the one function of the library that has been seen to allocate without
+	// bound when it is wrong, which would end this process without a verdict. So before anything runs in-process, a
+	// first pass runs in crash- and hang-isolated workers: every labelled graph with n <= 6, every 8th labelled graph on
+	// 7 vertices (each worker builds the minor tables once), and the part-C graphs (below, isolated as well). If a
+	// worker dies or hangs the graph is reported and the in-process parts are skipped.
+	{
+		var batches []interface{}
+		var raw []planarBatch
+		for n := 0; n <= 7; n++ {
+			total := uint64(1) << uint(edgeCount(n))
+			step := uint64(1)
+			if n == 7 {
+				step = 8
+			}
+			const B = 1 << 13
+			for lo := uint64(0); lo < total; lo += B * step {
+				hi := lo + B*step
+				if hi > total {
+					hi = total
+				}
+				b := planarBatch{N: n, Lo: lo, Hi: hi, Step: step}
+				batches = append(batches, b)
+				raw = append(raw, b)
+			}
+		}
+		var abnormal int32
+		c.RunIsolated("planar-small-batch", batches, 300*time.Second, func(i int, timedOut bool, stderr string) *Failure {
+			atomic.StoreInt32(&abnormal, 1)
+			cl := "planar/kills-the-process"
+			if timedOut {
+				cl = "planar/does-not-terminate"
+			}
+			if len(stderr) > 300 {
+				stderr = stderr[:300]
+			}
+			return &Failure{Class: cl, What: fmt.Sprintf("labelled graphs on %d vertices, masks %d..%d (step %d): IsPlanar gave no answer in an isolated worker: %s", raw[i].N, raw[i].Lo, raw[i].Hi, raw[i].Step, stderr), Kind: "planar-small-batch", Replay: raw[i]}
+		})
+		c.SetCount("isolated_canary_batches", int64(len(batches)))
+		c11Large(c) // part C, isolated as well
+		c.mu.Lock()
+		found := len(c.findings)
+		c.mu.Unlock()
+		if abnormal == 1 || found > 0 {
+			c.CapHit("the isolated passes (canary over small graphs, part C) already report failures; the in-process parts A and B were skipped, since an IsPlanar that is wrong may also exhaust memory")
+			return
+		}
 	}
 	tables := c11Exhaustive(c, maxN)
 	// other representations
@@ -335,7 +389,6 @@ func runC11(c *Ctx) {
 	})
 	c.SetCount("view_histories", int64(len(vcs)))
 	c11Search(c, tables)
-	c11Large(c)
 	c.Sample("labelled-graph", planarCase{N: 7, Mask: 0x1fffff &^ 0x3, G6: g6(7, 0x1fffff&^0x3), Rep: "dense"})
 	c.Assume("graphs with n >= 9 are covered only through the operation search of part B")
 }
@@ -362,6 +415,22 @@ func replayC11(kind string, raw json.RawMessage) *Failure {
 			return evalPlanarBig8(pc)
 		}
 		return evalPlanarSmall(pc, c11Tables)
+	case "planar-small-batch":
+		var b planarBatch
+		if err := json.Unmarshal(raw, &b); err != nil {
+			return &Failure{Class: "replay/bad-file", What: err.Error()}
+		}
+		c11TablesOnce.Do(func() {
+			c := newCtx("C11", "quick")
+			c11Tables = buildNonplanarTables(c, 7)
+		})
+		for m := b.Lo; m < b.Hi; m += b.Step {
+			pc := planarCase{N: b.N, Mask: m, G6: g6(b.N, m), Rep: "dense"}
+			if f := evalPlanarSmall(pc, c11Tables); f != nil {
+				return f
+			}
+		}
+		return nil
 	case "planar-state-eg":
 		return evalPlanarStateEG(pc)
 	case "planar-state":
